@@ -88,13 +88,14 @@ Definition take_sn (s : state) : state * Z :=
 
 Fixpoint cbf_find (c : list (list Z * list Z)) (k : list Z) : option (list Z) :=
   match c with [] => None | (k', p) :: r => if list_eqb k' k then Some p else cbf_find r k end.
-Fixpoint cbf_remove (c : list (list Z * list Z)) (k : list Z) : list (list Z * list Z) :=
-  match c with [] => [] | (k', p) :: r => if list_eqb k' k then r else (k', p) :: cbf_remove r k end.
+(* the buffer is a dict in the code: removing a key removes it altogether *)
+Definition cbf_remove (c : list (list Z * list Z)) (k : list Z) : list (list Z * list Z) :=
+  filter (fun kp => negb (list_eqb (fst kp) k)) c.
 
 Fixpoint ls_find (l : list ls_state) (a : list Z) : option ls_state :=
   match l with [] => None | x :: r => if list_eqb (ls_addr x) a then Some x else ls_find r a end.
-Fixpoint ls_remove (l : list ls_state) (a : list Z) : list ls_state :=
-  match l with [] => [] | x :: r => if list_eqb (ls_addr x) a then r else x :: ls_remove r a end.
+Definition ls_remove (l : list ls_state) (a : list Z) : list ls_state :=
+  filter (fun x => negb (list_eqb (ls_addr x) a)) l.
 Definition ls_put (l : list ls_state) (x : ls_state) : list ls_state :=
   match ls_find l (ls_addr x) with
   | None => l ++ [x]
